@@ -56,7 +56,8 @@ def build(ctx, lean_targets):
     with open(os.path.join(WORK, "build.lock"), "w") as lk:
         fcntl.flock(lk, fcntl.LOCK_EX)
         # 1. tools
-        if not os.path.exists(os.path.join(BIN, "extract")):
+        exe, src = os.path.join(BIN, "extract"), os.path.join(ROOT, "tools", "extract", "main.go")
+        if not os.path.exists(exe) or os.path.getmtime(exe) < os.path.getmtime(src):
             rc, out = sh(["go", "build", "-o", os.path.join(BIN, "extract"), "."],
                          cwd=os.path.join(ROOT, "tools", "extract"), env=GOENV)
             if rc:
